@@ -636,7 +636,7 @@ def build_cases(ctx, tup):
                 multi["file"].insert(rng.randrange(len(multi["file"])), ["ignore_unknown_attributes", rng.choice([True, False, "yes"])])
         cases.append(case)
     for i, c in enumerate(cases):
-        c["route"] = rng.choice(["arg", "env", "xdg"])
+        c["route"] = rng.choice(["arg", "env", "xdg", "obj"])   # obj: the file layer is loaded by the caller into a TupimageConfig object handed to the constructor
         c["labels"] = {"kw": rng.choice([None, "KW-label", "set via command line"]), "ov": rng.choice([None, "OV-label", "set via command line"])}
         if "multi" not in c:
             c["multi"] = {l: [[c["option"], v]] for l, v in c["layers"].items()}
@@ -705,11 +705,19 @@ def run_constructor_cases(ctx, cases, tup_unused=None):
                     ov["provenance"] = case["labels"]["ov"]
                 r = {"path": os.path.abspath(path) if path else None}
                 try:
+                    if case["route"] == "obj":
+                        base = C()
+                        if path:
+                            base.override_from_toml_file(path)
+                        kwargs["config"] = base
+                        r["base_pre"] = {n: [canon(getattr(base, n)), base.get_provenance(n)] for n in C.__annotations__}
                     t = tupimage.TupimageTerminal(out_command=common.RecStream(), out_display=common.RecStream(), in_response=tty,
                                                   id_database=os.path.join(work, "hl.db"), config_overrides=ov, **kwargs, **kw)
                     cfg = t._config
                     r["snap"] = {n: [canon(getattr(cfg, n)), cfg.get_provenance(n), spec_conforms(getattr(cfg, n), C.__annotations__[n], True)] for n in C.__annotations__}
                     r["config_file"] = t._config_file
+                    if case["route"] == "obj":
+                        r["base_post"] = {n: [canon(getattr(base, n)), base.get_provenance(n)] for n in C.__annotations__}
                     # what the top layer's raw value normalises to on its own (clause 1 reference)
                     try:
                         text = cfg.to_toml_string()
@@ -820,6 +828,7 @@ def check_constructor(ctx, cov, model, tup):
                     ctx.corr_breaks.append({"what": "constructor's exception differs from the model's", "case": brief, "impl": r["exc"], "model": rep[:300]})
         # ---------------- Spec oracle on the implementation's answers
         oracle_case(ctx, case, r, brief, ann, defaults, tup)
+        oracle_base(ctx, cov, r, brief, ann)
         if case.get("shared") and len(present) == 1:
             groups.setdefault((case["option"], case["klass"]), {})[present[0]] = (case, r)
     # clause 2 through the real layers: the same text in a file, in the environment, in code
@@ -848,6 +857,25 @@ def check_constructor(ctx, cov, model, tup):
 
 def tuple_json(x):
     return json.dumps(x, sort_keys=True)
+
+
+def oracle_base(ctx, cov, r, brief, ann):
+    if "base_post" in r and "snap" in r:
+        # the caller's own TupimageConfig object after the construction: whether the constructor works on it or on a copy,
+        # each option's (value, provenance) pair is the one it had before or the terminal's — a provenance naming a layer
+        # that did not give the object's value is a wrong report
+        cov.bump("ctor/config-object-of-the-caller-inspected")
+        for n in ann:
+            post = (tuple_json(r["base_post"][n][0]), r["base_post"][n][1])
+            pre = (tuple_json(r["base_pre"][n][0]), r["base_pre"][n][1])
+            term = (tuple_json(r["snap"][n][0]), r["snap"][n][1])
+            if post not in (pre, term):
+                ctx.violations.append({
+                    "signature": {"class": "precedence", "layer": "caller's config object", "value_ok": post[0] in (pre[0], term[0]), "provenance_ok": False},
+                    "what": f"{n}: after TupimageTerminal(config=<object>, ...) the caller's object reports value {r['base_post'][n][0]} with provenance {r['base_post'][n][1]!r}; "
+                            f"before it was {r['base_pre'][n]}, the terminal's own is {r['snap'][n][:2]}",
+                    "case": brief})
+                break
 
 
 def oracle_case(ctx, case, r, brief, ann, defaults, tup):
@@ -1101,6 +1129,7 @@ def replay(ctx, model, rec):
         out = run_constructor_cases(sub, [c])
         r = out[0]["results"][0]
         oracle_case(sub, c, r, case, C.__annotations__, out[0]["defaults"], tup)
+        oracle_base(sub, common.Coverage("replay"), r, case, C.__annotations__)
         return {"violates": bool(sub.violations), "observed": r.get("exc") or {k: v[:2] for k, v in r["snap"].items()}, "violations": [v["what"] for v in sub.violations]}
     if kind == "rt":
         cfg = C()
